@@ -288,17 +288,18 @@ def check_schedule(ctx: Ctx, case):
     return sig
 
 
-def explore(ctx: Ctx, scn, depth=6):
+def explore(ctx: Ctx, scn, depth=6, max_runs=None):
     try:
         with quiet():
-            return _explore(ctx, scn, depth)
+            return _explore(ctx, scn, depth, max_runs)
     except Violation as v:
         ctx.violations.append({"key": v.key, "what": v.what, "sub": v.sub, "case": v.case})
         return False
 
 
-def _explore(ctx: Ctx, scn, depth=6):
-    """All schedules of a scenario (this shard's share of the depth-`depth` subtrees)."""
+def _explore(ctx: Ctx, scn, depth=6, max_runs=None):
+    """All schedules of a scenario (this shard's share of the depth-`depth` subtrees); with `max_runs`, at most that many of
+    them per shard in depth-first order (then the scenario is recorded as truncated, not as exhaustively explored)."""
     sub = "exhaustive"
     prefix, n, sig0 = [], 0, None
     ref_ctl, ref_out, hp = run_once(scn, prefix=[])
@@ -326,10 +327,15 @@ def _explore(ctx: Ctx, scn, depth=6):
                          f"yields {ref_sig}: the outcome depends on thread timing", sub, case)
                 return False
         prefix = next_prefix(trace)
+        if max_runs is not None and n >= max_runs and prefix is not None:
+            ctx.classes[f"{sub}:truncated-after-{max_runs}-schedules-per-shard-{scn['sessions']}"] += 1
+            TRUNCATED.add(str(scn["sessions"]))
+            break
     ctx.classes[f"{sub}:schedules-of-{scn['sessions']}" + (f"-fault{scn['fault']}" if scn.get("fault") else "")] += n
     return True
 
 
+TRUNCATED = set()
 LOSS_SCRIPTS = [[5.0, 4.0, 4.0, 6.0, 1.0, 0.5, 0.5, 3.0, 0.25], [1.0, 2.0, 3.0, 0.5, 0.5, 4.0, 0.1, 9.0, 0.1],
                 [2.0, 0.0, 1.0, 0.0, 3.0, 0.0],   # reaches a perfect fit (best loss exactly 0)
                 [3.0, float("nan"), 2.0, float("inf"), 1.0, float("nan")]]   # batches whose loss is not finite
@@ -380,13 +386,16 @@ def run(ctx: Ctx):
     plan = [([1], [S0, E1, Z2, N3, X1]), ([2], [S0, E1, Z2, N3, X1]), ([3], [S0]), ([1, 1], [S0, N3, X1]), ([1, 2], [S0, E1])]
     if not ctx.quick:
         plan = [([1], [S0, E1, Z2, N3, X1]), ([2], [S0, E1, Z2, N3, X1]), ([3], [S0, E1]), ([1, 1], [S0, E1, Z2, N3, X1]),
-                ([1, 2], [S0, E1, Z2, N3]), ([2, 1], [S0, E1, N3]), ([1, 1, 1], [S0]), ([2, 2], [S0])]
+                ([1, 2], [S0, E1, Z2, N3]), ([2, 1], [S0, N3]), ([1, 1, 1], [S0]), ([2, 2], [S0])]
+    # the three largest session lists have 10^5 - 10^6 schedules each: depth-first, at most 8000 per shard and scenario
+    heavy = {"[2, 1]", "[1, 1, 1]", "[2, 2]"}
     ok = True
     for sessions, variants in plan:
         for agent, losses, eps in variants:
             # eps = 1: an agent that always explores - every choice comes straight from its random stream, so any dependence
             # of that stream on thread timing (e.g. re-seeding racing with the first draw) shows in the sampler sequence
-            if ok and not explore(ctx, scenario(sessions, agent=agent, losses=losses, eps=eps, seed=3 if eps == 1.0 else 1)):
+            if ok and not explore(ctx, scenario(sessions, agent=agent, losses=losses, eps=eps, seed=3 if eps == 1.0 else 1),
+                                  max_runs=8000 if str(sessions) in heavy else None):
                 ok = False
     # failing batches: a later batch of the first session, a batch of the second session, the bootstrap batch itself (the
     # agent thread may not even have begun when the session is torn down), and a fault that is not an `Exception`
@@ -396,6 +405,8 @@ def run(ctx: Ctx):
             ok = False
     if ok and not explore(ctx, scenario([1, 1], reseed=True)):
         ok = False
-    ctx.exhaustive_axes[f"all schedules of {[(p[0], len(p[1])) for p in plan]} (session list, variants) + 7 scenarios with a "
-                        "failing batch"] = ok
+    full = [(p[0], len(p[1])) for p in plan if str(p[0]) not in TRUNCATED]
+    ctx.exhaustive_axes[f"all schedules of {full} (session list, variants) + 8 scenarios with a failing batch / a re-seeding"] = ok
+    if TRUNCATED:
+        ctx.exhaustive_axes[f"session lists {sorted(TRUNCATED)}: first 8000 schedules per shard in depth-first order only"] = False
     drive(ctx, "sampled", sampled_cases(), check_sampled, ctx.n(1600, 40000))
